@@ -19,6 +19,12 @@ TieFree == \A a \in 1..N : Cardinality(Allowed(a)) = 1
 GraphClause == IF C.mode = "cut" THEN "ok"
                ELSE IF C.gabriel = <<>> THEN (IF GabrielMust(N, dm) = GabrielMay(N, dm) THEN "ok" ELSE "inconclusive")
                ELSE IF ~GSymmetric(N, G) THEN "gabriel-graph-not-symmetric"
+               \* "no third point INSIDE the ball spanned by an edge": a third point exactly ON the sphere does not remove the edge.
+               \* Recorded fits use dyadic coordinates, for which squared distances and their sums are exact in double precision,
+               \* so the graph is held to the definition itself (GabrielMay), ties included.
+               \* (in free space; the minimum-image distances of the periodic metric carry rounding noise of a few 1e-16 even for
+               \* dyadic input - 10.000000000000002 for an exact 10 - so with a cell a third point ON the sphere stays undecided)
+               ELSE IF C.cell = <<>> /\ ~GraphBetween(N, G, GabrielMay(N, dm), GabrielMay(N, dm)) THEN "gabriel-graph-differs-from-brute-force-definition"
                ELSE IF ~GraphBetween(N, G, GabrielMust(N, dm), GabrielMay(N, dm)) THEN "gabriel-graph-differs-from-brute-force-definition"
                ELSE "ok"
 Clause ==
